@@ -151,14 +151,18 @@ def twice_refined(rng, count):
 
 
 # ---------------------------------------------------------------- single-column gadgets
-def convex_polygon(rng, k, scale=100.0):
-    """k corners in counter-clockwise order on a random ellipse, angular gaps bounded below"""
+MAP_ORIGINS = [(1812345.67, 5512345.89), (2712345.123, 6123456.457), (-1812345.67, 5512345.89), (312345.678, 4212345.91), (5512345.89, -1812345.67)]
+
+
+def convex_polygon(rng, k, scale=100.0, offset=None):
+    """k corners in counter-clockwise order on a random ellipse, angular gaps bounded below.
+    offset = a (non-round) map-projection origin the polygon is moved to"""
     while True:
         ang = sorted(rng.uniform(0, 2 * math.pi) for _ in range(k))
         gaps = [(ang[(i + 1) % k] - ang[i]) % (2 * math.pi) for i in range(k)]
         if min(gaps) > 2 * math.pi / (2.5 * k) and max(gaps) < math.pi * 0.95: break
     a, b = scale * rng.uniform(0.6, 1.5), scale * rng.uniform(0.6, 1.5)
-    ox, oy = rng.choice([0., 1000., -300.]), rng.choice([0., 2000.])
+    ox, oy = (rng.choice([0., 1000., -300.]), rng.choice([0., 2000.])) if offset is None else offset
     # coordinates with few bits so that mid-points are exact in binary floating point
     return [(ox + round(a * math.cos(t) * 4) / 4.0, oy + round(b * math.sin(t) * 4) / 4.0) for t in ang]
 
@@ -452,4 +456,76 @@ def sequence_cases(rng, reps, infos=()):
             c = rng.choice(ok)
             cases.append({'mesh': {'kind': 'file', 'name': info['name']}, 'seed': rng.randrange(1 << 30), 'shape': 'seq:refine>decompose(all)', 'npts': 4,
                           'steps': [{'name': 'refine', 'columns': [c], 'bisect': False, 'edge': []}, {'name': 'decompose', 'target': 'all', 'take': None}]})
+    return cases
+
+
+# ---------------------------------------------------------------- map-projection coordinates
+def map_cases(rng, reps):
+    """columns of the order of 10 m at map-projection eastings / northings (1e6..1e7 m, not round):
+    the products in shoelace sums then need ~1e14 and cancel to ~1e2, so anything computed without
+    shifting to a local origin is off by metres.  Every operation that places a centre node."""
+    cases = []
+    for rep in range(reps):
+        for ox, oy in MAP_ORIGINS:
+            nx, ny = rng.randint(2, 4), rng.randint(2, 3)
+            dx = [rng.choice([9.7, 11.3, 10., 12.45, 8.2, 5.1]) for _ in range(nx)]; dy = [rng.choice([9.7, 11.3, 10., 7.35]) for _ in range(ny)]
+            dz = rng.choice([[10.], [5., 10.]])
+            top = rng.choice(tops_for(dz))
+            def mesh():
+                m = rect(dx, dy, dz, atmos=rng.choice([0, 1, 2]), origin=[ox, oy, top])
+                if rng.random() < 0.3: m['rotate'] = rng.choice([30., 45., -60.])
+                if rng.random() < 0.3: m['centres'] = 'centroid'
+                return m
+            n = nx * ny
+            surf = lambda: random_surfaces(rng, n, dz, top) if rng.random() < 0.5 else None
+            for mode in MODES:
+                kind, S = region(rng, nx, ny)
+                cases.append({'mesh': mesh(), 'surfaces': surf(), 'seed': rng.randrange(1 << 30), 'shape': 'map:' + kind, 'lattice': 5,
+                              'op': {'name': 'refine', 'columns': S, 'bisect': mode, 'edge': []}})
+            cases.append({'mesh': mesh(), 'surfaces': surf(), 'seed': rng.randrange(1 << 30), 'shape': 'map:single', 'lattice': 5,
+                          'op': {'name': 'refine', 'columns': [rng.randrange(n)], 'bisect': False, 'edge': []}})
+            cases.append({'mesh': mesh(), 'surfaces': surf(), 'seed': rng.randrange(1 << 30), 'shape': 'map:corner', 'lattice': 5,
+                          'op': {'name': 'refine', 'columns': [0, nx + 1], 'bisect': False, 'edge': []}})
+            cases.append({'mesh': mesh(), 'surfaces': surf(), 'seed': rng.randrange(1 << 30), 'shape': 'map:split', 'lattice': 5,
+                          'op': {'name': 'split', 'column': rng.randrange(n), 'node': rng.randrange(4)}})
+            cases.append({'mesh': mesh(), 'surfaces': surf(), 'seed': rng.randrange(1 << 30), 'shape': 'map:triangulate', 'lattice': 5,
+                          'op': {'name': 'triangulate', 'columns': [rng.randrange(n)]}})
+            for name, steps in rng.sample(sequence_patterns(rng, n), 3):
+                cases.append({'mesh': mesh(), 'surfaces': surf(), 'seed': rng.randrange(1 << 30), 'shape': 'map:seq:' + name, 'npts': 4, 'steps': steps})
+            # single general quadrilaterals / triangles (gadgets) and polygons, ~10 m across
+            for nn in (3, 4):
+                corners = convex_polygon(rng, nn, scale=8.0, offset=(ox, oy))
+                sides = rng.choice([s for r in range(1, nn + 1) for s in itertools.combinations(range(nn), r)])
+                m = gadget(corners, sides, top=top)
+                cases.append({'mesh': m, 'surfaces': special_surfaces(rng, len(m['columns']), m['dz'], top, first=len(cases)), 'seed': rng.randrange(1 << 30),
+                              'shape': 'map:gadget', 'npts': 8, 'op': {'name': 'refine', 'columns': list(range(1, len(m['columns']))), 'bisect': False, 'edge': []}})
+            for n_, pl in ((6, [1, 0, 1, 0]), (8, [1, 1, 1, 1]), (5, [0] * 5), (9, [0] * 9)):
+                base = convex_polygon(rng, len(pl), scale=8.0, offset=(ox, oy))
+                pts = []; straight = []
+                for i in range(len(pl)):
+                    p, q_ = base[i], base[(i + 1) % len(pl)]
+                    pts.append(p)
+                    if pl[i]: straight.append(len(pts)); pts.append(((p[0] + q_[0]) / 2.0, (p[1] + q_[1]) / 2.0))
+                m = decompose_mesh(pts, ring=True, top=top)
+                cases.append({'mesh': m, 'surfaces': special_surfaces(rng, len(m['columns']), m['dz'], top, first=len(cases)), 'seed': rng.randrange(1 << 30),
+                              'shape': 'map:polygon', 'npts': 6, 'polygon': {'n': n_, 'ns': sum(pl), 'placement': pl, 'straight': straight},
+                              'op': {'name': rng.choice(['decompose', 'triangulate']), 'columns': [0]}})
+    return cases
+
+
+# ---------------------------------------------------------------- the caller's argument lists re-used
+def twin_cases(rng, count):
+    """the same call made first on a model variant (same mesh and names, other surfaces) with the
+    very same argument list objects, then on the geometry under test: the result must not depend
+    on the earlier call or on the other live geometry"""
+    cases = []
+    for c in random_rect(rng, count) + twice_refined(rng, count // 4):
+        cases.append(dict(c, twin={'surface_shift': -1.0}, shape='twin:' + c.get('shape', '')))
+    small = exhaustive_small(rng, [([10., 20.], [15., 5.]), ([10., 20., 5.], [15., 5.])])
+    for c in small[::max(1, len(small) // max(1, count))]:
+        cases.append(dict(c, twin={'surface_shift': -2.5}, shape='twin:small'))
+    for c in decompose_cases(rng, 1, nmax=8)[::max(1, 400 // max(1, count))]:
+        cases.append(dict(c, twin={'surface_shift': -1.0}, shape='twin:polygon'))
+    for c in layer_cases(rng, False)[::max(1, 260 // max(1, count // 2))]:
+        cases.append(dict(c, twin={'surface_shift': -1.0}, shape='twin:layers'))
     return cases
